@@ -56,7 +56,7 @@ Definition dr_from_quantized (p : dr_params) (s : seq) : res dr_result :=
   bind (steps_per_bar s) (fun spb =>
   match dr_sorted_groups p (s_notes s) with
   | [] => Ok (mkDrResult [] 0 0 spb (s_spq s))
-  | (k0, _) :: _ as gs =>
+  | ((k0, _) :: _) as gs =>
       let tss := bar_start k0 (dp_search_start p) spb in
       let evs := dr_loop (dp_gap_bars p * spb) tss gs [] 0 in
       match evs with
